@@ -171,6 +171,175 @@ func runC08(c *Ctx) {
 			acctHelper[fn] = acct{ki, vi}
 		}
 	}
+	// linBound: the value stored into size is bounded by limit by linear reasoning over the fields as they stand
+	// in memory: a dominating comparison (or the exit condition a helper returns under, with its parameters replaced
+	// by the arguments) states  e ≤ 0  for the very linear form  value − limit, and size is not written between the
+	// comparison (the helper's return) and the store.
+	sizeFx := newLenFx(P, sizeF)
+	writesSize := func(in ssa.Instruction) bool {
+		switch y := in.(type) {
+		case *ssa.Store:
+			return sizeFx.isFieldAddr(y.Addr)
+		case *ssa.Call:
+			if cal := staticCallee(&y.Call); cal != nil {
+				return sizeFx.storesField(cal, map[*ssa.Function]bool{})
+			}
+		}
+		return false
+	}
+	// lin: the linear form of an integer value; loads of size used are returned
+	var lin func(fn *ssa.Function, v ssa.Value, loads *[]ssa.Instruction) lform
+	lin = func(fn *ssa.Function, v ssa.Value, loads *[]ssa.Instruction) lform {
+		switch y := v.(type) {
+		case *ssa.Const:
+			if k, ok := constInt(y); ok {
+				return lconst(k)
+			}
+		case *ssa.BinOp:
+			switch y.Op {
+			case token.ADD:
+				return lin(fn, y.X, loads).add(lin(fn, y.Y, loads), 1)
+			case token.SUB:
+				return lin(fn, y.X, loads).add(lin(fn, y.Y, loads), -1)
+			}
+		case *ssa.UnOp:
+			if isLoad(y, sizeF) {
+				*loads = append(*loads, y)
+				return latom("size")
+			}
+			if isLoad(y, limitF) {
+				return latom("limit")
+			}
+		case *ssa.Parameter:
+			for i, p := range fn.Params {
+				if p == y {
+					return latom(fmt.Sprintf("param:%d", i))
+				}
+			}
+		}
+		return latom(fmt.Sprintf("v:%p", v))
+	}
+	// fresh: size is not written on any path from `from` to `to` that does not pass `from` again
+	fresh := func(from, to ssa.Instruction) bool {
+		w := walkFrom(from, false, func(in ssa.Instruction) bool { return in == to || in == from })
+		for _, in := range w.order {
+			if in == to || in == from || !writesSize(in) {
+				continue
+			}
+			if r, _ := reachesWithout(P, in, false, func(j ssa.Instruction) bool { return j == to }, func(j ssa.Instruction) bool { return j == from }); r {
+				return false
+			}
+		}
+		return true
+	}
+	// factsLE: linear forms e with e ≤ 0 known at block b and fresh at instruction `at`
+	factsLE := func(fn *ssa.Function, b *ssa.BasicBlock, at ssa.Instruction) []lform {
+		var out []lform
+		for _, cm := range cmpsAt(b) {
+			var lds []ssa.Instruction
+			l, r := lin(fn, cm.X, &lds), lin(fn, cm.Y, &lds)
+			var e lform
+			switch cm.Op {
+			case token.LEQ:
+				e = l.add(r, -1)
+			case token.GEQ:
+				e = r.add(l, -1)
+			default:
+				continue
+			}
+			ok := true
+			for _, ld := range lds {
+				if !fresh(ld, at) {
+					ok = false
+				}
+			}
+			if ok {
+				out = append(out, e)
+			}
+		}
+		return out
+	}
+	// post: what an unexported helper of the cache guarantees on every return, over size, limit and its parameters
+	postMemo := map[*ssa.Function][]lform{}
+	post := func(h *ssa.Function) []lform {
+		if r, ok := postMemo[h]; ok {
+			return r
+		}
+		postMemo[h] = nil
+		var common []lform
+		first := true
+		allInstrs(h, func(in ssa.Instruction) {
+			ret, ok := in.(*ssa.Return)
+			if !ok {
+				return
+			}
+			fs := factsLE(h, ret.Block(), ret)
+			if first {
+				common, first = fs, false
+				return
+			}
+			var keep []lform
+			for _, a := range common {
+				for _, b := range fs {
+					if a.eq(b) {
+						keep = append(keep, a)
+						break
+					}
+				}
+			}
+			common = keep
+		})
+		postMemo[h] = common
+		return common
+	}
+	linBound := func(fn *ssa.Function, st *ssa.Store) bool {
+		var lds []ssa.Instruction
+		goal := lin(fn, st.Val, &lds).add(latom("limit"), -1)
+		for _, ld := range lds {
+			if !fresh(ld, st) {
+				return false
+			}
+		}
+		for _, e := range factsLE(fn, st.Block(), st) {
+			if e.eq(goal) {
+				return true
+			}
+		}
+		// helpers called before the store
+		found := false
+		allInstrs(fn, func(in ssa.Instruction) {
+			call, ok := in.(*ssa.Call)
+			if !ok || found || !dominatesInstr(call, st) {
+				return
+			}
+			cal := staticCallee(&call.Call)
+			if cal == nil || origin(cal).Object() == nil || origin(cal).Object().Exported() || !fresh(call, st) {
+				return
+			}
+			h := origin(cal)
+			for _, e := range post(h) {
+				ok := true
+				for i := range h.Params {
+					if i >= len(call.Call.Args) {
+						break
+					}
+					var alds []ssa.Instruction
+					a := lin(fn, call.Call.Args[i], &alds)
+					if len(alds) > 0 {
+						if _, uses := e.at[fmt.Sprintf("param:%d", i)]; uses {
+							ok = false
+						}
+						continue
+					}
+					e = e.subst(fmt.Sprintf("param:%d", i), a)
+				}
+				if ok && e.eq(goal) {
+					found = true
+				}
+			}
+		})
+		return found
+	}
 	// departure helpers with the pair as parameters (drop(key, val): Remove(key), callback, size, count): the value
 	// is the parameter the callback receives; every call site must pass the value a successful Check of that key gave
 	depParams := map[*ssa.Function]acct{}
@@ -468,6 +637,9 @@ func runC08(c *Ctx) {
 							if (cm.X == x.Val && isLoad(cm.Y, limitF) && cm.Op == token.LSS) || (cm.Y == x.Val && isLoad(cm.X, limitF) && cm.Op == token.GTR) {
 								strict = true
 							}
+						}
+						if !okF && !strict && linBound(fn, x) {
+							okF = true
 						}
 						var why string
 						if !okF {
@@ -886,7 +1058,7 @@ func runC08(c *Ctx) {
 			if direct {
 				tests := false
 				allInstrs(fn, func(in ssa.Instruction) {
-					if bo, ok := in.(*ssa.BinOp); ok && (isLoad(bo.X, countF) || isLoad(bo.Y, countF)) {
+					if bo, ok := in.(*ssa.BinOp); ok && negOp(bo.Op) != token.ILLEGAL && (isLoad(bo.X, countF) || isLoad(bo.Y, countF)) {
 						tests = true
 					}
 				})
